@@ -5,7 +5,7 @@ CONSTANTS
   MaxRxns = 2
   GridSeq <- G_Five
   StateModes <- M_Pat
-  Patterns <- P_Many
+  Patterns <- P_One
   Extents <- X_Few
   Deltas <- D_Few
   Factors <- F_Few
